@@ -54,6 +54,7 @@ type Interp struct {
 	files              *fileTable
 	hostFns            map[string]*ssa.Function
 	hasPrev            bool
+	timerOf            map[*value]*vtimer
 	curInstr           ssa.Instruction
 	curFn              *ssa.Function
 }
